@@ -21,7 +21,13 @@ MENU_T = [(0, 10), (-10, 10), (0, 0), (2, 10), (-10, -2), (-10, 0), (3, 3), (0, 
 def params(tier):
     if tier == "quick":
         return dict(nm=3, nr=3, K=(-1, 0, 1), d=1, menu=MENU_Q)
-    return dict(nm=3, nr=4, K=(-1, 0, 1, 2), d=1, menu=MENU_T)
+    return dict(nm=3, nr=3, K=(-1, 0, 1), d=1, menu=MENU_T)
+
+
+def thorough_passes():
+    return [(dict(nm=3, nr=3, K=(-1, 0, 1), d=1, menu=MENU_T), None),
+            (dict(nm=3, nr=4, K=(-1, 0, 1), d=1, menu=[(-10, 0)]), lambda n: len(n) == 4),
+            (dict(nm=3, nr=3, K=(-1, 0, 1, 2), d=0, menu=MENU_Q), lambda n: any(abs(x) == 2 for c in n for x in c))]
 
 
 def room_oracle(fba, ref, closed, delta, epsilon):
@@ -261,10 +267,14 @@ def replay(case):
 def explore(ctx):
     P = params(ctx.tier)
     n_self = exactlp.selftest(limit=3000)
-    nets = families.networks(P["nm"], P["nr"], P["K"])
-    off = ctx.seed % len(nets)
-    nets = nets[off:] + nets[:off]
-    payloads = [{"params": P, "nets": nets[i:i + 2], "rich": ctx.thorough} for i in range(0, len(nets), 2)]
+    passes = [(P, None)] if ctx.tier == "quick" else thorough_passes()
+    payloads, nets = [], []
+    for PP, flt in passes:
+        ns = [n for n in families.networks(PP["nm"], PP["nr"], PP["K"]) if flt is None or flt(n)]
+        off = ctx.seed % len(ns)
+        ns = ns[off:] + ns[:off]
+        nets += ns
+        payloads += [{"params": PP, "nets": ns[i:i + 2], "rich": ctx.thorough and PP["nr"] == 3} for i in range(0, len(ns), 2)]
     stats = {}
     with ctx.pool(timeout=3000) as pool:
         for i, status, res in pool.imap(payloads):
